@@ -491,11 +491,9 @@ class DataLinkConnection(TransmissionControlObject):
                 self.state.CLOSED = True
                 raise err.ConnectRefused(rcvd_pdu.reason)
             elif rcvd_pdu.name == "CC":
-                self.peer = rcvd_pdu.ssap
+                # the connection was established by enqueue() when the CC
+                # arrived, the CC no longer occupies the receive queue
                 self.recv_buf = self.recv_win
-                self.send_miu = rcvd_pdu.miu
-                self.send_win = rcvd_pdu.rw
-                self.state.ESTABLISHED = True
                 return
             else:  # pragma: no cover
                 raise RuntimeError("CC or DM expected, not " + rcvd_pdu.name)
@@ -630,6 +628,15 @@ class DataLinkConnection(TransmissionControlObject):
 
         elif self.state.CONNECT and rcvd_pdu.name in ("CC", "DM"):
             with self.lock:
+                if rcvd_pdu.name == "CC":
+                    # establish the connection here in the link thread, the
+                    # peer may send I PDUs right behind the CC (in the same
+                    # aggregate) and before the thread in connect() runs
+                    self.peer = rcvd_pdu.ssap
+                    self.recv_buf = self.recv_win + 1  # CC is in the queue
+                    self.send_miu = rcvd_pdu.miu
+                    self.send_win = rcvd_pdu.rw
+                    self.state.ESTABLISHED = True
                 self.recv_queue.append(rcvd_pdu)
                 self.recv_ready.notify()
 
